@@ -219,6 +219,7 @@ class UnitBuilder:
         self.functions = []   # dict(path, file, repo_lines, out_lines, name)
         self.items = []
         self.dropped = []
+        self.viewfns = []
         self.spec_fns = []
 
     def src(self, f):
@@ -393,6 +394,60 @@ class UnitBuilder:
                                    repo_lines=[sig_line0, s.line_of(fn.body_close)],
                                    out_lines=[out_start, out_end], contracted=any(b['anchor'] == 'spec' for b in blocks)))
 
+    def emit_viewfn(self, f, path, opts, secs, mode, tname, L):
+        """View-level contract of a function, used two ways: mode=prove -> an exec wrapper `name__view` that calls the real
+        (verified) function, so Verus checks view-pre ==> real pre and real post ==> view-post; mode=assume -> an external_body
+        shim `name` carrying the SAME text (a caller is checked against the callee's contract, not its body)."""
+        s = self.src(f)
+        try:
+            fn = s.find_fn(path)
+        except rsx.ScanError as e:
+            raise BuildError(str(e))
+        sig = fn.signature.rstrip()
+        line0 = s.line_of(fn.fn_kw)
+        msk = rsx.mask(sig)
+        p_open = msk.find('(')
+        p_close = rsx.match_close(msk, p_open)
+        params = sig[p_open + 1:p_close]
+        arrow = msk.find('->', p_close)
+        ret_ty = sig[arrow + 2:].strip() if arrow >= 0 else None
+        retname = opts.get('ret', 'r')
+        # argument names (skip self)
+        names = []
+        depth = 0
+        curp = ''
+        for ch in params + ',':
+            if ch in '(<[':
+                depth += 1
+            if ch in ')>]':
+                depth -= 1
+            if ch == ',' and depth == 0:
+                pn = curp.strip()
+                curp = ''
+                if pn and 'self' not in pn.split(':')[0]:
+                    names.append(pn.split(':')[0].replace('mut ', '').strip())
+                continue
+            curp += ch
+        has_self = 'self' in params.split(',')[0]
+        origin = lambda k: ('spec', tname, L + k)
+        spec = ''
+        if secs['pre'].strip():
+            spec += '        requires\n' + secs['pre']
+        if secs['post'].strip():
+            spec += '        ensures\n' + secs['post']
+        name = fn.name
+        if mode == 'assume':
+            hdr = '#[verifier::external_body]\nfn %s(%s)%s\n' % (name, params, (' -> (%s: %s)' % (retname, ret_ty)) if ret_ty else '')
+            self.out.add(hdr + spec + '{ unimplemented!() }\n', origin)
+            self.viewfns.append(dict(path=path, mode='assume', template=tname, line=L))
+        else:
+            call = ('self.' if has_self else (path.split('::')[0] + '::' if '::' in path else '')) + name + '(' + ', '.join(names) + ')'
+            hdr = 'fn %s__view(%s)%s\n' % (name, params, (' -> (%s: %s)' % (retname, ret_ty)) if ret_ty else '')
+            body = '{\n' + secs['hint'] + '        ' + call + '\n}\n'
+            out_start = len(self.out.lines) + 1
+            self.out.add(hdr + spec + body, origin)
+            self.viewfns.append(dict(path=path, mode='prove', template=tname, line=L, wrapper=name + '__view', out_lines=[out_start, len(self.out.lines)]))
+
     def _impl_text(self, s, fn):
         for (t, h, bo, bc) in s.impls():
             if bo < fn.fn_kw < bc:
@@ -432,6 +487,12 @@ class UnitBuilder:
                     raise rsx.ScanError('loop %s iter: no `in`' % a[1])
                 return [(lp['kw_pos'] + m.end(), a[3] + ': ')]
             raise rsx.ScanError('unknown loop anchor ' + anchor)
+        if a[0] in ('before-continue', 'before-return'):
+            lst = B.continues if a[0] == 'before-continue' else B.returns
+            n = int(a[1])
+            if n < 1 or n > len(lst):
+                raise rsx.ScanError('%s %d not found (function has %d)' % (a[0], n, len(lst)))
+            return [(lst[n - 1], text)]
         if a[0] in ('before-if', 'after-if'):
             d = self._if(B, int(a[1]))
             return [(d['start'], text)] if a[0] == 'before-if' else [(d['end'], '\n' + text)]
@@ -493,13 +554,15 @@ class UnitBuilder:
         return B.loops[n - 1]
 
     # ---- template -------------------------------------------------------
-    def _read_template(self, path, export_only=False, depth=0):
-        """-> list of (text, tname, lineno); `//@ include f` is expanded to f's exported region."""
+    def _read_template(self, path, export_only=False, depth=0, mode=None):
+        """-> list of (text, tname, lineno, mode); `//@ include f [mode=M]` is expanded to f's exported region;
+        `//@ when M` .. `//@ end-when` sections are kept only when the file is included with that mode."""
         if depth > 4:
             raise BuildError('include depth')
         tname = os.path.basename(path)
         res = []
         exporting = not export_only
+        keep = True
         for i, ln in enumerate(open(path, encoding='utf-8').read().split('\n')):
             st = ln.strip()
             if st.startswith('//@ begin-export'):
@@ -508,14 +571,27 @@ class UnitBuilder:
             if st.startswith('//@ end-export'):
                 exporting = not export_only
                 continue
+            if st.startswith('//@ when '):
+                keep = (st.split()[2] == mode)
+                continue
+            if st.startswith('//@ end-when'):
+                keep = True
+                continue
+            if not keep:
+                continue
             if st.startswith('//@ include '):
                 if exporting:
-                    inc = st.split()[2]
-                    res += self._read_template(os.path.join(os.path.dirname(path), inc), True, depth + 1)
-                    self.includes.append(inc)
+                    toks = st.split()
+                    inc = toks[2]
+                    m2 = None
+                    for t in toks[3:]:
+                        if t.startswith('mode='):
+                            m2 = t.split('=', 1)[1]
+                    res += self._read_template(os.path.join(os.path.dirname(path), inc), True, depth + 1, m2)
+                    self.includes.append(inc + ('[' + m2 + ']' if m2 else ''))
                 continue
             if exporting:
-                res.append((ln, tname, i + 1))
+                res.append((ln, tname, i + 1, mode))
         return res
 
     def build(self):
@@ -523,7 +599,7 @@ class UnitBuilder:
         tl = self._read_template(self.tpath)
         i = 0
         while i < len(tl):
-            ln, tname, L = tl[i]
+            ln, tname, L, mode = tl[i]
             st = ln.strip()
             if st.startswith('//@'):
                 d = st[3:].strip()
@@ -540,6 +616,30 @@ class UnitBuilder:
                     self.emit_const(toks[1], toks[2])
                     i += 1
                     continue
+                if toks[0] == 'viewfn':
+                    # //@ viewfn <file> <Type::name> ret=r  ... //@ pre / //@ post / //@ hint ... //@ end
+                    f, path = toks[1], toks[2]
+                    vopts = dict(t.split('=', 1) for t in toks[3:] if '=' in t)
+                    secs = {'pre': '', 'post': '', 'hint': ''}
+                    cur = None
+                    i += 1
+                    while i < len(tl):
+                        ln2, tname2, L2, _m2 = tl[i]
+                        s2 = ln2.strip()
+                        if s2.startswith('//@'):
+                            d2 = s2[3:].strip()
+                            if d2 == 'end':
+                                break
+                            if d2 in secs:
+                                cur = d2
+                            else:
+                                raise BuildError('%s:%d unknown viewfn directive %s' % (tname2, L2, d2))
+                        elif cur:
+                            secs[cur] += ln2 + '\n'
+                        i += 1
+                    self.emit_viewfn(f, path, vopts, secs, mode, tname, L)
+                    i += 1
+                    continue
                 if toks[0] == 'fn':
                     f, path = toks[1], toks[2]
                     opts = {'rewrite': {}, 'sigsub': [], 'bodysub': []}
@@ -552,7 +652,7 @@ class UnitBuilder:
                     cur = None
                     closed = False
                     while i < len(tl):
-                        ln2, tname2, L2 = tl[i]
+                        ln2, tname2, L2, _m2 = tl[i]
                         s2 = ln2.strip()
                         if s2.startswith('//@'):
                             d2 = s2[3:].strip()
@@ -604,7 +704,7 @@ class UnitBuilder:
         return text
 
     def meta(self):
-        return dict(template=self.tpath, functions=self.functions, items=self.items, includes=getattr(self, 'includes', []), dropped=self.dropped,
+        return dict(template=self.tpath, functions=self.functions, items=self.items, includes=getattr(self, 'includes', []), dropped=self.dropped, viewfns=self.viewfns,
                     rewrite_hits=self.rewrite_hits, origin=self.out.origin)
 
 
